@@ -97,6 +97,32 @@ def check_hforms(ctx: Ctx, c: Dict[str, Any]) -> None:
             o = o.reshape(-1, P.shape[0], D)
             if o.shape[0] != e.shape[0] or max_err(o, e) > TOL * max(1.0, float(e.abs().max())):
                 bad("homogeneous_transform", f"{nm} applied to {name} differs from the specified map", vectors=vflag, how=nm)
+    # more than two operands: the product of a chain is the chain of pairwise products (every form may follow every form)
+    def full_of(x_):
+        items = x_["items"] if x_["batch"] == "many" else x_["items"][:1]
+        eye = torch.eye(D, dtype=torch.float64)
+        return torch.stack([torch.cat([eye if x_["form"] == "T" else torch.tensor(fl(F(it["A"])), dtype=torch.float64),
+                                       (torch.zeros(D, dtype=torch.float64) if x_["form"] == "A" else torch.tensor(fl(F(it["t"])), dtype=torch.float64)).reshape(D, 1)], dim=1) for it in items])
+
+    def comp(X, Y):  # apply Y then X, (K, D, D+1) each with broadcasting over K
+        K = max(X.shape[0], Y.shape[0])
+        X, Y = X.expand(K, D, D + 1), Y.expand(K, D, D + 1)
+        A_ = X[:, :, :D] @ Y[:, :, :D]
+        t_ = (X[:, :, :D] @ Y[:, :, D:]) + X[:, :, D:]
+        return torch.cat([A_, t_], dim=2)
+
+    FA, FB = full_of(c["a"]), full_of(c["b"])
+    for label, ops_, fulls in (("a,a,b", (a, a, b), (FA, FA, FB)), ("a,b,a", (a, b, a), (FA, FB, FA)), ("b,b,a", (b, b, a), (FB, FB, FA)), ("a,a,a,b", (a, a, a, b), (FA, FA, FA, FB))):
+        e = fulls[-1]
+        for Fm in reversed(fulls[:-1]):
+            e = comp(Fm, e)
+        try:
+            got = as_homogeneous_matrix(homogeneous_matmul(*ops_)).reshape(-1, D, D + 1).double()
+        except Exception as ex:
+            bad("homogeneous_matmul", f"chain ({label}) raised {type(ex).__name__}: {ex}", exc=type(ex).__name__, chain=label)
+            continue
+        if got.shape[0] != e.shape[0] or max_err(got, e) > TOL * max(1.0, float(e.abs().max())):
+            bad("homogeneous_matmul", f"chain ({label}) differs from the chain of pairwise products" + ("" if got.shape[0] == e.shape[0] else f" (batch {got.shape[0]} vs {e.shape[0]})"), chain=label, what="chain")
     # conversion to a full matrix with an extra translation offset: the linear part stays, the offset ADDS to the translation
     from deepali.core.linalg import homogeneous_matrix
 
@@ -183,6 +209,19 @@ def check_rotation(ctx: Ctx, c: Dict[str, Any], k: int) -> None:
         same("euler_rotation_matrix", guarded("euler_rotation_matrix", lambda: A.euler_rotation_matrix(ang, order=o), form="unbatched", notation=notation, **osig), form="unbatched", **osig)
         same("euler_rotation_matrix", guarded("euler_rotation_matrix", lambda: A.euler_rotation_matrix(torch.stack([ang, ang]), order=o, homogeneous=True), form="homogeneous", notation=notation, **osig), form="homogeneous", **osig)
         same("rotation_matrix", guarded("rotation_matrix", lambda: A.rotation_matrix(ang.unsqueeze(0), order="".join(order)), form="batched", **osig), form="batched", **osig)
+        # angles given in other forms and dtypes mean the same rotation: float32 / float64 tensors, Python floats, and WHOLE radians as ints
+        ai = [1, -2, 3][: len(c["cs"])]
+        ref_i = guarded("euler_rotation_matrix", lambda: A.euler_rotation_matrix(torch.tensor([ai], dtype=torch.float64), order=o), form="int reference", **osig)
+        if ref_i is not None:
+            for fname, arg_ in (("int64 tensor", torch.tensor([ai], dtype=torch.int64)), ("int32 tensor", torch.tensor([ai], dtype=torch.int32)), ("float32 tensor", torch.tensor([ai], dtype=torch.float32)),
+                                ("tuple of ints", tuple(ai)), ("list of floats", [float(v) for v in ai])) + ((("int", ai[0]), ("float", float(ai[0]))) if len(ai) == 1 else ()):
+                got_i = guarded("euler_rotation_matrix", lambda: A.euler_rotation_matrix(arg_, order=o), angles=fname, **osig)
+                if got_i is None:
+                    continue
+                if not got_i.dtype.is_floating_point:
+                    bad("euler_rotation_matrix", f"angles given as {fname} produce a rotation matrix of dtype {got_i.dtype}", angles=fname, aspect="dtype", **osig)
+                elif max_err(got_i.double().reshape(-1, *ref_i.shape[-2:])[0], ref_i.reshape(-1, *ref_i.shape[-2:])[0]) > 1e-6:
+                    bad("euler_rotation_matrix", f"angles {ai} given as {fname} produce another matrix than the same angles as float64 tensor", angles=fname, aspect="value", **osig)
         # angles <- matrix (documented for some orders only), judged in matrix space
         a2 = guarded("euler_rotation_angles", lambda: A.euler_rotation_angles(M.unsqueeze(0), order="".join(order)), **osig)
         if a2 is not None:
